@@ -11,3 +11,14 @@ chk("C04", "types", "exploration", "property-based testing (Hypothesis) + small-
 chk("C05", "types", "exploration", "property-based testing (Hypothesis) + small-scope enumeration against a declarative witness (tightness) oracle",
     "Same generated space as C04; the inferred type is walked in lock-step with the observed values: strict coverage, every union alternative inhabited by a value with its exact head, Any only beside an observed empty container, required/optional keys by counting. Exploration of an unbounded space.",
     "trusts mtverif.oracle.witnessed; reading of 'Any' fixed in DESIGN.md 3.2", "DESIGN.md 4/C05")
+ENGINES[0]["serves_properties"] = ["C04", "C05", "C06", "C07", "C08"]
+ENGINES[0]["path"] = "mtverif/tinfer.py, mtverif/tgram.py, mtverif/oracle.py, mtverif/vals.py"
+chk("C06", "types", "exploration", "property-based testing (Hypothesis): structural invariant over every TypedDict node in inferred types, decoded store rows and rendered stub classes",
+    "Dict-rich generated values x k: no TypedDict anywhere when k=0 (types, raw stored rows, stub text); with k>0 every TypedDict node / rendered class family has 1..k string keys and empty or non-str-keyed dicts are admitted by a non-TypedDict alternative. Three stages: inference, real trace->SQLite->decode, CLI stub.",
+    "stage 2/3 use the real monkeytype.trace, SQLiteStore and cli.main with an env-driven DefaultConfig subclass (fixtures/fx_cfg.py)", "DESIGN.md 4/C06")
+chk("C07", "types", "exploration", "property-based testing + exhaustive small-scope enumeration of a type grammar; value-level non-narrowing via characteristic inhabitants, one-directional trigger predicates, reference model for RemoveEmptyContainers, chain = composition",
+    "Every shipped rewriter, the default chain and drawn ordered pairs on enumerated, random and inferred types: rewrite returns, every strict inhabitant of the input (and every witness value) is admitted by the result, the type is unchanged when the documented trigger is absent, chains equal sequential composition.",
+    "trigger predicates and the RemoveEmptyContainers model are written from the property statement and class docstrings", "DESIGN.md 4/C07")
+chk("C08", "types", "exploration", "property-based round-trip testing (encode/decode, CallTraceRow, SQLite file) with a structural-equality oracle; metamorphic stability of the encoding across rebuilds, histories and PYTHONHASHSEED",
+    "decode(encode(T)) structurally equals T for inferred / yield-accumulated / rewritten / grammar types; re-encoding and independent rebuilds give the same text up to union order; flat class unions encode identically in a fresh interpreter; call traces of 22 fixture functions of every kind round-trip through CallTraceRow and a SQLite file with absent kept distinct from NoneType.",
+    "unions are compared as sets; Tuple[T, ...] is excluded (DESIGN 3.5)", "DESIGN.md 4/C08")
